@@ -39,10 +39,24 @@ def run(ctx):
     cl = codec.Classes()
     cl.check_driver()
     thorough = ctx.tier == "thorough"
-    idxs = codec.choose_classes(len(cl), rng, None if thorough else 420, ctx.seed + 4)
+    idxs = codec.choose_classes(len(cl), rng, None if thorough else 420, ctx.seed + 4, cl)
     per = 16 if thorough else 6
     insts = [(i, poke_floats(rng, a, cl.cls(i)) if cl.cls(i).__type__.name != "nested" else a, o)
              for i, a, o in codec.gen_instances(cl, idxs, per, rng)]
+    # values that compare equal but have different encodings (+0.0 / -0.0), back to back in both
+    # orders: a value-keyed shortcut anywhere between decode and encode would confuse them
+    def set_floats(a, bits):
+        if a[0] == "F":
+            return ("F", bits)
+        if a[0] in ("E", "A"):
+            return (a[0], [set_floats(x, bits) for x in a[1]])
+        return a
+    extra = []
+    for i, a, o in insts:
+        if " F" in " " + values.render(a) and len(extra) < 60:
+            for bits in (0, 1 << 63, 0, 1 << 63):
+                extra.append((i, set_floats(a, bits), o))
+    insts = insts + extra
     spec = driver.run_parallel([f"spec {i} {values.render(a)}" for i, a, _ in insts], jobs=14)
     fails, disagreements, lines, meta = [], [], [], []
     lossy_prone = 0
